@@ -1,7 +1,7 @@
 (* C01 - property theorems only. *)
 From Coq Require Import String.
 From V Require Import Lib.Base Lib.Cbor Lib.CborParse Lib.CborSpan Lib.CborProofs
-  C07.Model C07.Basics C07.Walkers C01.Model C01.Gen C01.Proofs.
+  C07.Model C07.Basics C07.Walkers C01.Model C01.Gen C01.Proofs C01.Store.
 Local Open Scope nat_scope.
 
 (* C01_stored_bytes: for a Shelley..Conway block
@@ -121,3 +121,35 @@ Example C01_nonvacuous :
   wf b /\ size_ok b /\
   extract_tx_cbor (enc b) 1 1 = Some (Some ([enc (Map (Some F1) [(UInt F2 2, UInt F4 5)])], [enc (Map None [])], Some (enc (Map (Some Fimm) [])))).
 Proof. split; [vm_compute; repeat split; repeat constructor|]. split; [vm_compute; discriminate|vm_compute; reflexivity]. Qed.
+
+(* C01_retained_stable: HISTORIES.  In the allocate-only store model of
+   SetCbor / SetCborReference (C01.Store, reuse = false = the code as it is),
+   whatever a decode into a receiver hands out - the reference to the whole
+   object and the references to its children at their spans - reads as the
+   input of THAT decode and its slices at those spans, immediately and after
+   ANY further sequence of decodes (of anything, of any size) into the same
+   receiver: earlier objects keep their wire bytes. *)
+Theorem C01_retained_stable : forall h own d spans later,
+  let '(st, refs) := decode_into false (h, own) d spans in
+  Forall2 (fun r want => read (fst (run false st later)) r = Some want)
+          refs (d :: map (fun s => slice (fst s) (snd s) d) spans).
+Proof.
+  intros h own d spans later. pose proof (decode_reads h own d spans) as H.
+  destruct (decode_into false (h, own) d spans) as [[h' own'] refs]. cbn [fst] in *.
+  induction H as [|r want refs wants [Hr Hlt] _ IH]; constructor; [|exact IH].
+  destruct (run_stable later h' own' r Hlt) as [E _]. etransitivity; [exact E|exact Hr].
+Qed.
+Print Assumptions C01_retained_stable.
+
+(* ... and this is what an in-place SetCbor (reuse the receiver's buffer when the next
+   encoding fits: seeded/C01-b-setcbor-buffer-reuse) breaks: the body reference kept
+   from the first decode reads a byte of the second input *)
+Theorem C01_retained_reuse_refuted :
+  let '(op1, op2) := reuse_witness in
+  let '(st, refs) := decode_into true ([], None) (fst op1) (snd op1) in
+  exists r, nth_error refs 1 = Some r /\
+    read (fst st) r = Some [1%N] /\ read (fst (run true st [op2])) r = Some [9%N] /\
+    (* the code as it is, same history *)
+    let '(st', refs') := decode_into false ([], None) (fst op1) (snd op1) in
+    exists r', nth_error refs' 1 = Some r' /\ read (fst (run false st' [op2])) r' = Some [1%N].
+Proof. vm_compute. eexists. repeat split. eexists. split; reflexivity. Qed.
